@@ -101,3 +101,88 @@ fn search() {
     println!("WSTATS {{\"evaluations\":{},\"mode\":\"search\"}}", evals);
     assert!(found == 0, "witness found");
 }
+
+// ---- second search: the CONTRACT of confined_destination (units/confine/unit.vrs) checked natively against std's own
+// component split.  It exercises exactly the std::path facts the Verus unit trusts on this platform (T2c: Normal names are
+// non-empty, separator-free, not "." / ".."; T4+T5: PathBuf::push of such a name appends one Normal component), for several
+// shapes of destination path, and the None <==> "escaping component or no name" clause.
+fn contract_violation(dest: &std::path::Path, s: &str) -> Option<String> {
+    use std::path::Component as C;
+    let comps: Vec<C> = std::path::Path::new(s).components().collect();
+    let escaping = comps.iter().any(|c| !matches!(c, C::Normal(_) | C::CurDir));
+    let names: Vec<&std::ffi::OsStr> = comps.iter().filter_map(|c| if let C::Normal(n) = c { Some(*n) } else { None }).collect();
+    for n in &names {
+        let b = n.as_encoded_bytes();
+        if b.is_empty() || b.contains(&b'/') || b == b"." || b == b".." {
+            return Some(format!("std::path yields the Normal name {:?} (trusted fact T2c of the unit is false)", n));
+        }
+    }
+    let expect_none = escaping || names.is_empty();
+    match confined_destination(dest, s) {
+        None => if expect_none { None } else { Some("None for a location made of names and '.' only".to_string()) },
+        Some(p) => {
+            if expect_none {
+                return Some(format!("Some({:?}) for a location with a parent/root/prefix component or without any name", p));
+            }
+            let mut want: Vec<C> = dest.components().collect();
+            want.extend(names.iter().map(|n| C::Normal(n)));
+            let got: Vec<C> = p.components().collect();
+            if got != want {
+                return Some(format!("components {:?}, expected those of dest followed by the names {:?}", got, want));
+            }
+            if !p.starts_with(dest) || got.len() <= dest.components().count() {
+                return Some(format!("{:?} is not strictly below {:?}", p, dest));
+            }
+            None
+        }
+    }
+}
+
+fn report_contract(dest: &str, loc: &str, obs: &str) {
+    let hex: String = loc.bytes().map(|b| format!("{:02x}", b)).collect();
+    let dhex: String = dest.bytes().map(|b| format!("{:02x}", b)).collect();
+    println!("WITNESS {{\"fn\":\"confined_destination\",\"input\":{{\"location_hex\":\"{}\",\"location\":\"{}\",\"dest_hex\":\"{}\",\"outcome\":0}},\"observed\":\"{}\",\"expected\":\"Some(dest followed by the Normal components of the location, in order) iff the location has only Normal/CurDir components and at least one Normal; None otherwise\"}}",
+        hex, loc.replace('\\', "\\\\").replace('"', "'"), dhex, obs.replace('\\', "\\\\").replace('"', "'"));
+}
+
+#[test]
+fn search_contract() {
+    let dests = ["/d", "/d/", "/d/.", "d", "d/e", ".", "", "/", "./d", "../d"];
+    if let Ok(inp) = std::env::var("VERIF_REPLAY_INPUT") {
+        let field = |k: &str| -> Option<String> {
+            let hex = inp.split(&format!("\"{}\":", k)).nth(1)?.trim().trim_start_matches('"').split('"').next()?.to_string();
+            let bytes: Vec<u8> = (0..hex.len() / 2).map(|i| u8::from_str_radix(&hex[2 * i..2 * i + 2], 16).unwrap()).collect();
+            String::from_utf8(bytes).ok()
+        };
+        let loc = field("location_hex").unwrap();
+        let mut bad = false;
+        for d in field("dest_hex").map(|d| vec![d]).unwrap_or_else(|| dests.iter().map(|d| d.to_string()).collect()) {
+            if let Some(o) = contract_violation(std::path::Path::new(&d), &loc) { report_contract(&d, &loc, &o); bad = true; }
+        }
+        assert!(!bad, "replayed input still violates the contract of confined_destination");
+        return;
+    }
+    let thorough = std::env::var("VERIF_TIER").map(|t| t == "thorough").unwrap_or(false);
+    // every string of up to `maxlen` symbols over an alphabet that holds the separators, dots, and the characters the
+    // property statement lists (percent-encoding, backslash, scheme colon), plus a two-byte character
+    let alphabet = ["a", ".", "/", "\\", "%2e", ":", " ", "\u{e9}"];
+    let maxlen = if thorough { 6 } else { 5 };
+    let mut evals = 0u64;
+    let mut found = 0;
+    let mut idx: Vec<usize> = Vec::new();
+    loop {
+        let loc: String = idx.iter().map(|&i| alphabet[i]).collect();
+        for d in dests {
+            evals += 1;
+            if found < 4 {
+                if let Some(o) = contract_violation(std::path::Path::new(d), &loc) { report_contract(d, &loc, &o); found += 1; }
+            }
+        }
+        // next string in length-lexicographic order
+        let mut i = 0;
+        while i < idx.len() { idx[i] += 1; if idx[i] < alphabet.len() { break; } idx[i] = 0; i += 1; }
+        if i == idx.len() { idx.push(0); if idx.len() > maxlen { break; } }
+    }
+    println!("WCONTRACT {{\"evaluations\":{},\"mode\":\"search\"}}", evals);
+    assert!(found == 0, "contract violation found");
+}
